@@ -95,3 +95,22 @@ Theorem C12_reported_scopes_are_the_records : forall cfg s key tampered scopes p
     pl_scopes p = r_gscopes r /\ pl_aud p = map a_raw (r_gaud r).
 Proof. exact reported_scopes_are_the_records. Qed.
 Print Assumptions C12_reported_scopes_are_the_records.
+
+(* the history monitor of the flow half (Cases/Monitors.v judge_C12) on the model: for every operation that carries a
+   requested scope/audience and every tracker whose view of the requesting client's registration is the state's, the
+   judge is silent on the model's answer; likewise for refresh requests when the tracker's granted scopes of the
+   presented token are the stored record's *)
+From FositeModel Require Import Cases.CasesHist Cases.Monitors Proofs.MonitorC12H.
+Theorem C12_monitor_request_clause_holds_of_the_model : forall cfg m s o c sc au pr,
+  request_of o = Some (c, sc, au) ->
+  nth_error (m_clients m) c = clients s c ->
+  judge_C12 cfg m o (snd (step cfg s o)) pr = (None, [], []).
+Proof. exact judge_C12_request_clause_sound. Qed.
+Print Assumptions C12_monitor_request_clause_holds_of_the_model.
+Theorem C12_monitor_refresh_clause_holds_of_the_model : forall cfg m s a tok sm pr j c,
+  cred m tok = Some (j, c) ->
+  (forall a, nth_error (m_clients m) a = clients s a) ->
+  (forall k r, key_of s tok = Some k -> refresh (st s) k = Some (true, r) -> ci_scopes c = r_gscopes r) ->
+  judge_C12 cfg m (ORefresh (Some a) tok sm) (snd (step cfg s (ORefresh (Some a) tok sm))) pr = (None, [], []).
+Proof. exact judge_C12_refresh_clause_sound. Qed.
+Print Assumptions C12_monitor_refresh_clause_holds_of_the_model.
